@@ -41,7 +41,6 @@ NOT_APPLICABLE = {
     "C03": "asymptotic convergence rate over unbounded float trajectories: needs whole multi-iteration solve runs (one iteration of the trivial game is a 23M-variable formula) and an induction over T; proof-assistant territory, not bounded solving (DESIGN.md C03)",
     "C04": "probabilistic statement over thousands of iterations; with draws symbolic the solver quantifies over adversarial draw sequences, for which the statement is false by design (DESIGN.md C04)",
     "C01": "the evaluator (src/regret.rs: expected, optimal_deviations, next_infoset_search) walks the tree with explicit Vec stacks; CBMC's symbolic execution did not get through even `expected` on a 7-node tree in 10 minutes (symbolic Vec lengths turn every push/pop into a case split over all slots; 600 s, 72 loop unwindings, no solver call), and a MIR->SMT encoding of these nested data-dependent loops was not within reach; measured in DESIGN.md section 2",
-    "C11": "Game::from_root/init_recurse builds and, on every `?` path, drops heap Node trees: the mutually recursive drop glue (Node, Player, Chance, Box<[Node]>, [Node]) and the iterator-driven recursion are explored by CBMC at every drop site; the smallest rung (one node over <= 2 terminals, container model, per-function recursion limits via --unwindset) did not finish symbolic execution in 15 minutes in three configurations; measured in DESIGN.md section 2. Two contract violations found by reading (forgotten own action accepted; infoset with one action here and two there accepted) are reported in DESIGN.md section 6 but are not decided by a check",
     "C17": "depends on which byte strings serde_json / gambit-parser (nom, big rationals) reject and on process exit status and stream contents; symbolic execution of those parsers over a symbolic buffer is far beyond reach of Kani here (DESIGN.md C17)",
 }
 for _p in [f"C{i:02d}" for i in range(1, 20)]:
@@ -542,3 +541,33 @@ REGISTRY["C08"]["harnesses"] += [
       bounds="one-action decision node of either player over a terminal; reach in {1/4,1/2,1}^3; real recursion (depth 2); unwind 2", role="single-thread traversal feeds the average strategy with the ACTING player's own reach; value is the child's; regret unchanged"),
 ]
 REGISTRY["C02"]["harnesses"].append(REGISTRY["C08"]["harnesses"][-1])
+
+# ---------------------------------------------------------------------------------------------
+# E2 for the constructor: one invocation of init_recurse (the recursion itself could not be carried by Kani)
+def _ctor(prop, tier):
+    import ctor_check
+    r = ctor_check.run(prop, tier)
+    for f in r["findings"]:
+        f.native_kind = "c11"
+    return r
+
+
+REGISTRY["C11"] = {
+    "level": "other",
+    "explanation": "Symbolic execution of rustc's MIR of ONE invocation of Game::init_recurse (every complete path; the three input loops unrolled <= 2 iterations; recursive calls, "
+                   "iterators, Vec and map operations uninterpreted; chance weights in the SMT floating-point theory, list and set sizes as integers). Each path's result is compared with the "
+                   "documented contract as a decision table over the facts the path established about ITS node: the solver decides the weight rule (kept <=> positive and finite, every f64) and "
+                   "the distinctness rule (recorded <=> set size = list length); structural obligations cover which error is named, that accepting paths established every per-node rule, that "
+                   "a revisited chance infoset is compared after summing and dividing, what is passed down (context, this player's previous infoset updated for the children, weight/child pairing) "
+                   "and what is recorded for a new infoset. The MIR is dumped from /repo's current tree on every run.",
+    "assumptions": ["rustc's MIR dump is the program that is compiled", "containers, iterators and the recursive calls are uninterpreted: that the tables return what was inserted (compact.rs, HashMap) is outside",
+                    "one invocation only: whole-tree facts (the two documented-contract gaps F7/F8 in DESIGN.md: a forgotten own action, one label with one action here and two there) are NOT decided",
+                    "payoff finiteness (Terminal arm) is not checked by the constructor at all and is not claimed"],
+    "parts": [_ctor],
+}
+MANIFEST_TEXT["C11"] = {
+    "engine": "mirsmt",
+    "technique": "MIR-to-SMT symbolic execution of one invocation of Game::init_recurse (per-node decision table), decided by z3",
+    "text": "Partial: for every path through one invocation of the constructor's recursive step the solver / path analysis shows that a chance weight is kept exactly when it is positive and finite (all f64), that each error kind is returned only in its documented situation and a node is accepted only after every rule that concerns that node alone was established (empty chance / player nodes, weights, probabilities equal after normalisation on a revisit, actions equal, actions distinct on the first visit, same previous infoset of the same player), that failing subtrees propagate, and that the children are built with the right context. Whole-tree consequences (that these per-node rules add up to the documented class, including the two gaps F7/F8) are not claimed.",
+    "note": "Level 'other'. Per-node step only; Game::from_root as a whole could not be encoded (Kani: drop glue and recursion, DESIGN.md section 2). A finding is confirmed natively by building 48 small valid / singly-invalid trees through Game::from_root (replay crate, c11).",
+}
